@@ -850,6 +850,13 @@ regp_recv(RegP *p, RPMaybeFrame *mf)
     switch (cs.error.id) {
     case 0:
         /* No error indicated. Good! */
+        if (cs.buffer.data == NULL) {
+            /* ...except if the frame was empty: The sink never saw any data,
+             * so no buffer was allocated at all. An empty frame is shorter
+             * than any header. */
+            mf->error.id = EBADMSG;
+            return regp_resp_meta(p, RP_META_EHEADERENC);
+        }
         break;
     case EBUSY:
         /* Send EBUSY reply, based on fallback buffer */
